@@ -317,6 +317,9 @@ extern "C" void cbmc_main() {
 #if POL != 3
         P::vptrs.resize(VPCAP);
         for (std::size_t i = 0; i < VPCAP; i++) P::vptrs[i] = (nondet_u32() & 1) ? junk : nullptr;
+#else
+        // the map published by an earlier update still holds entries for the classes it knew
+        for (int c = 0; c < NC; c++) { unsigned known = nondet_u32() & 1; if (known) P::vptrs[CLASS_ID[c]] = junk; }
 #endif
     }
 #endif
@@ -384,6 +387,9 @@ extern "C" void cbmc_main() {
             }
         }
         // publish invariant relied upon by the call-path checks
+#if POL == 3
+        { auto it = P::vptrs.find(CLASS_ID[c]); verif_assert(it != P::vptrs.end() && it->second == svptr[c], 14); }
+#endif
 #if POL != 3
         verif_assert(CLASS_ID[c] < P::vptrs.size() && P::vptrs[CLASS_ID[c]] == svptr[c], 14);
 #if ALIAS_IDS
